@@ -57,12 +57,17 @@ def pickStep (cur name : Name) : Name :=
 
 def pickLoop (cands : List Name) : Name := cands.foldl pickStep []
 
-/-- the member that will be read, or `DaeIncompleteError` -/
+/-- `self.filename` after the block: `zip_filename` if given, else what the loops leave -/
+def chosen (names : List Name) (zipFilename : Option Name) : Name :=
+  match zipFilename with
+  | some z => z
+  | none => pickLoop (daefiles names)
+
+/-- the member that will be read, or `DaeIncompleteError`
+    (`if not self.filename or self.filename not in self.zfile.namelist(): raise`) -/
 def selectMember (names : List Name) (zipFilename : Option Name) : Except Err Name :=
-  let filename := match zipFilename with
-    | some z => z
-    | none => pickLoop (daefiles names)
-  if filename.isEmpty || !(names.contains filename) then .error .incomplete else .ok filename
+  if (chosen names zipFilename).isEmpty || !(names.contains (chosen names zipFilename)) then .error .incomplete
+  else .ok (chosen names zipFilename)
 
 /-! ### `posixpath` -/
 
